@@ -12,7 +12,7 @@ NodeType.create_and_fill (same node / None / exception class as `Schema.createAn
 """
 import itertools
 
-from prosemirror.model import Fragment
+from prosemirror.model import Fragment, Schema
 
 from .. import core, gen, schemas
 from ..core import outcome
@@ -102,10 +102,36 @@ def cf_partial_contents(rng, docs, t):
     return out
 
 
+AIMED_DEAD_ENDS = [
+    # a required position only a non-generatable node (required attribute) can fill, behind a loop that keeps offering
+    # generatable nodes: no match can end without the non-generatable node, so filling can only fail
+    {"doc": {"content": "fig+"}, "fig": {"content": "cap* img"}, "cap": {"content": "text*"}, "img": {"attrs": {"src": {}}}, "text": {}},
+    {"doc": {"content": "a"}, "a": {"content": "(g g)* g n"}, "g": {}, "n": {"attrs": {"x": {}}}, "text": {}},
+    {"doc": {"content": "sec+"}, "sec": {"content": "(p | q)+ end"}, "p": {"content": "text*"}, "q": {}, "end": {"attrs": {"k": {}}}, "text": {}},
+    {"doc": {"content": "p{2,} z"}, "p": {"content": "text*"}, "z": {"content": "text*", "attrs": {"id": {}}}, "text": {}},
+]
+
+
 def run(ctx):
     core.lean_phase(ctx)
     rng = ctx.rng
     reqs, metas = [], []
+
+    # aimed: the constructor must refuse these (C06's dead-end clause, on which the filling theorems rest); when it accepts
+    # one, the filling functions are asked on it and the crash / the missing filling is the failing input
+    for spec in AIMED_DEAD_ENDS:
+        try:
+            sc, sts = Schema({"nodes": {k: dict(v) for k, v in spec.items()}}), "ok"
+        except (SyntaxError, ValueError):
+            sc, sts = None, "refused"
+        ctx.count("aimed-dead-end:" + ("accepted" if sts == "ok" else "refused"))
+        if sts == "ok":
+            top = sc.nodes["doc"]
+            stf, fl = outcome(lambda: top.content_match.fill_before(Fragment.empty, True))
+            stc, cf = outcome(lambda: top.create_and_fill())
+            ctx.violation("accepted-dead-end", "Schema() accepted a content expression with a required position that only a non-generatable node "
+                          f"can fill; fill_before(<>, True) at the top node: {stf} {str(fl)[:80]}; create_and_fill(): {stc} {str(cf)[:80]}",
+                          {"schema": "aimed", "nodes": spec})
 
     def flush():
         outs = ctx.driver.run(reqs) if reqs else []
@@ -114,6 +140,21 @@ def run(ctx):
             if op == "createAndFill":
                 if out != impl:
                     ctx.mismatch("create_and_fill (exact)", replay, impl, out)
+                continue
+            if op == "schemaHyps":
+                # the schema-level guards of the theorems, measured on every schema the constructor accepted: every content
+                # automaton deterministic and in range (hdet / DfaWF / WrapWF), and LIVE — from every reachable state a valid end
+                # can be reached through generatable nodes — which is what the constructor's dead-end check promises
+                # (C06: "required positions that only non-generatable nodes can fill are rejected") and what
+                # createAndFill_nothing_iff / createAndFill_raises assume
+                h = out.get("ok") or {}
+                for k in ("det", "inRange", "live"):
+                    ctx.count(f"hyp:{k}:{h.get(k)}")
+                if h.get("live") is False:
+                    ctx.violation("accepted-dead-end", "Schema() accepted a schema in which some content expression has a state that cannot "
+                                  "reach a valid end through generatable nodes: filling there can only fail or crash", replay)
+                elif not (h.get("det") and h.get("inRange")):
+                    ctx.mismatch("schema hypotheses", replay, "deterministic, in-range automata", h)
                 continue
             if "ok" not in out:
                 ctx.mismatch(op, replay, "answer", out)
@@ -143,6 +184,9 @@ def run(ctx):
             ((schemas.layered_schema(rng) if rng.random() < 0.3 else None) or schemas.random_schema(rng))
         schema = info.schema
         ctx.driver.add_schema(info)
+        reqs.append({"op": "schemaHyps", "s": info.lean_id})
+        metas.append(("schemaHyps", {"schema": info.name, "nodes": {k: {kk: vv for kk, vv in v.items() if kk in ("content", "group", "attrs", "inline")}
+                                                                   for k, v in info.schema.spec["nodes"].items()}}, None))
         types = list(schema.nodes.values())
         gens = [t for t in types if generatable(t)]
         wrappers = [t for t in types if wrap_ok(t)]
